@@ -147,11 +147,42 @@ fn one_case(rep: &Report, idx: usize, seed: u64) -> Option<(String, String)> {
         // clone, local and HTTP
         for http in [false, true] {
             let out = dir.join(if http { "o_http.bin" } else { "o_local.bin" });
-            let server = if http { Some(Server::start(Arc::new(e.bytes.clone()), httpd::well_behaved())) } else { None };
+            // One HTTP clone in three meets a flaky link (one chunk-data response — the first,
+            // second or third — ends in mid-body once, retries are on: the transfer resumes
+            // and the clone must still reproduce the source); another third gets its bodies
+            // in small pieces. Foreign layouts have several chunk-data requests, so what is
+            // left over from one must not leak into the next.
+            let flavour = (idx / 2) % 3;
+            let cdo = e.chunk_data_offset;
+            let victim = (idx / 6) % 3;
+            let cut_seed = idx * 7919 + 13;
+            let data_reqs = Arc::new(std::sync::atomic::AtomicUsize::new(0));
+            let script: httpd::Script = match flavour {
+                1 => {
+                    let dr = data_reqs.clone();
+                    let done = Arc::new(std::sync::atomic::AtomicBool::new(false));
+                    Arc::new(move |r: &httpd::Req, _f: &[u8]| {
+                        if let Some((a, b)) = r.range {
+                            if a >= cdo && b > a {
+                                let n = dr.fetch_add(1, std::sync::atomic::Ordering::SeqCst);
+                                if n == victim && !done.swap(true, std::sync::atomic::Ordering::SeqCst) {
+                                    let len = (b + 1 - a) as usize;
+                                    return httpd::Action::CutAfter(1 + cut_seed % (len - 1));
+                                }
+                            }
+                        }
+                        httpd::Action::Full
+                    })
+                }
+                2 => Arc::new(move |_r: &httpd::Req, _f: &[u8]| httpd::Action::Fragmented(vec![1 + cut_seed % 5, 1 + cut_seed % 300, 1 + cut_seed % 9000])),
+                _ => httpd::well_behaved(),
+            };
+            let server = if http { Some(Server::start(Arc::new(e.bytes.clone()), script)) } else { None };
             let cs = CloneSpec {
                 archive: server.as_ref().map(|x| x.url()).unwrap_or_else(|| p(&apath)),
                 output: out.clone(),
                 verify_output: idx % 2 == 0,
+                retries: if http && flavour == 1 { Some(2) } else { None },
                 ..Default::default()
             };
             let o = proc::run(&Run::new(&dir, if http { "clone_http" } else { "clone_local" }, scn::clone_args(&cs)));
@@ -170,6 +201,9 @@ fn one_case(rep: &Report, idx: usize, seed: u64) -> Option<(String, String)> {
                 return Err(format!("{} of a conforming archive gives a wrong output (first difference {:?}, {} vs {} bytes)", who, first_diff(&got, &g.source), got.len(), g.source.len()));
             }
             rep.count(if http { "clones.http" } else { "clones.local" }, 1);
+            if http && flavour == 1 && data_reqs.load(std::sync::atomic::Ordering::SeqCst) > victim {
+                rep.count("clones.http_with_a_cut_response_and_retries", 1);
+            }
         }
         // library: accessors + clone over a fragmenting reader
         let rt = crate::exec::rt_multi(1);
